@@ -48,12 +48,12 @@ def main():
     patch = os.path.join(a.src, "patch.diff")
     demo = os.path.join(a.src, "demo.py")
     meta = dict(seed_id=a.seed_id, property=a.pid, checks_run=checks, tier=a.tier,
-                repo_head=sh("git -C /repo rev-parse --short HEAD")[1].strip(), when=time.strftime("%Y-%m-%d %H:%M"))
+                repo_head=sh("git -C /repo rev-parse --short %s" % os.environ.get("SEED_BASE", "HEAD"))[1].strip(), when=time.strftime("%Y-%m-%d %H:%M"))
     scratch = "/var/tmp/seedeval-%s" % a.seed_id
     shutil.rmtree(scratch, ignore_errors=True)
     os.makedirs(scratch)
     try:
-        rc, out = sh("git -C /repo archive HEAD | tar -x -C %s" % scratch)
+        rc, out = sh("git -C /repo archive %s | tar -x -C %s" % (os.environ.get("SEED_BASE", "HEAD"), scratch))
         assert rc == 0, out
         env = dict(os.environ)
         env.pop("PYTHONPATH", None)
